@@ -23,7 +23,7 @@ const hdrName = "X-T"
 var fieldSize = []int{2, 3, 6, 3}
 
 type matcher struct {
-	kind   byte // 'a' atom, 'e' error matcher, 'n' not
+	kind   byte // 'a' atom, 'e' error matcher, 'l' legacy RequestMatcher (answers ekind == 1), 'n' not
 	field  int  // atom: 0 method 1 host 2 path 3 header
 	vals   []int
 	ekind  int // error matcher: 0 (false,err) 1 (true,err) 2 legacy Match+var
@@ -118,6 +118,12 @@ func (p *parser) matcher() *matcher {
 		return m
 	case "e":
 		return &matcher{kind: 'e', ekind: p.nat(), status: p.nat()}
+	case "l":
+		m := &matcher{kind: 'l', ekind: p.nat()}
+		if m.ekind > 1 {
+			p.bad = true
+		}
+		return m
 	case "n":
 		m := &matcher{kind: 'n'}
 		for n := p.count(); n > 0 && !p.bad; n-- {
@@ -227,6 +233,8 @@ func kindKey(m *matcher) int {
 		return m.field
 	case 'e':
 		return 4 + m.ekind
+	case 'l':
+		return 8 + m.ekind
 	}
 	return 7
 }
@@ -317,6 +325,9 @@ func (e *enc) sets(sets [][]*matcher) {
 				e.w("e")
 				e.n(m.ekind)
 				e.n(m.status)
+			case 'l':
+				e.w("l")
+				e.n(m.ekind)
 			case 'n':
 				e.w("n")
 				e.sets(m.sets)
